@@ -28,7 +28,8 @@ ASSUMPTIONS = [
 
 IMG_SHAPES = [(6, 6, 6), (7, 8, 9), (12, 13, 14)]
 BOXES = [(1, 1, 1), (2, 2, 2), (3, 3, 3), (2, 3, 1)]
-KINDS = ["numpy", "dask:whole", "dask:4,5,3", "mixed:numpy-first", "mixed:dask-first"]  # mixed: batch loaders holding in-memory and lazy images
+KINDS = ["numpy", "dask:whole", "dask:4,5,3", "mixed:numpy-first", "mixed:dask-first",  # mixed: batch loaders holding in-memory and lazy images
+         "numpy:F", "numpy:strided"]  # memory layout: Fortran order (a transposed MRC volume), a strided view of a larger array
 
 
 def AXES(tier):
@@ -43,6 +44,8 @@ def cases(tier, seed):
     # b larger than an axis would give an empty image: outside the statement (there is no block to sum)
     out = [{"family": "operator", "b": b, "shape": [4, 5, 6], "array": k} for b in range(1, 5) for k in KINDS]
     out += [{"family": "operator", "b": b, "shape": [6, 7, 6], "array": k} for b in (5, 6) for k in KINDS]
+    # shapes whose leading axes are multiples of b (only the last axis is cropped: the cropped array keeps its memory layout)
+    out += [{"family": "operator", "b": b, "shape": list(sh), "array": k} for b, sh in ((2, (4, 6, 7)), (3, (6, 3, 5)), (2, (4, 4, 4))) for k in KINDS]
     # integer tomograms with realistic grey levels: block sums leave the range of the input dtype
     out += [{"family": "dtype", "b": b, "dtype": dt, "array": k, "loader": lk} for b in (2, 3, 4) for dt in ("int16", "uint16", "uint8", "int8", "float64")
             for k in ("numpy", "dask:4,5,3") for lk in ("single", "batch2")]
@@ -88,6 +91,12 @@ def _as_array(a, kind, i=0):
         kind = "numpy" if numpy_here else "dask:4,5,3"
     if kind == "numpy":
         return a
+    if kind == "numpy:F":
+        return np.asfortranarray(a)
+    if kind == "numpy:strided":
+        big = np.zeros(tuple(2 * n for n in a.shape), dtype=a.dtype)
+        big[::2, ::2, ::2] = a
+        return big[::2, ::2, ::2]
     from dask import array as da
 
     spec = kind.split(":")[1]
